@@ -50,6 +50,88 @@ def _public_names(p, cq) -> List[str]:
 
 
 # ---------------------------------------------------------------------------
+# membership guards inside ONE expression
+# ---------------------------------------------------------------------------
+
+def _chain_text(e) -> Optional[str]:
+    ch = attr_chain(e)
+    return '.'.join(ch) if ch else None
+
+
+def _member_facts(test, truth: bool) -> Set[Tuple[str, str]]:
+    """(key text, mapping text) pairs `k in d` that HOLD when `test` evaluates
+    to `truth`: `k in d` (true), `k not in d` / `not (k in d)` (false), every
+    conjunct of a true `and`, every disjunct of a false `or`."""
+    out: Set[Tuple[str, str]] = set()
+    if isinstance(test, ast.UnaryOp) and isinstance(test.op, ast.Not):
+        return _member_facts(test.operand, not truth)
+    if isinstance(test, ast.BoolOp):
+        if isinstance(test.op, ast.And) == truth:
+            for v in test.values:
+                out |= _member_facts(v, truth)
+        return out
+    if isinstance(test, ast.Compare) and len(test.ops) == 1 and isinstance(test.ops[0], (ast.In, ast.NotIn)):
+        if isinstance(test.ops[0], ast.In) == truth:
+            d = _chain_text(test.comparators[0])
+            if d:
+                out.add((short(test.left), d))
+    return out
+
+
+class GuardedSiteEscape(SiteEscape):
+    """SiteEscape that also reads membership guards established INSIDE an
+    expression: `d[k] if k in d else c`, `c if k not in d else d[k]`,
+    `k in d and d[k]`, `k not in d or d[k]`.  A subscript `d[k]` evaluated only
+    when `k in d` held for the same key text on the same mapping text cannot
+    raise KeyError (the statement-level `if k in d:` / `if k not in d: return`
+    forms are already read by the base class).  Nothing between the test and
+    the subscript can run inside one expression except the operands themselves,
+    so the fact cannot be invalidated unless an operand is a call that mutates
+    the mapping - the same assumption the statement-level guard makes."""
+
+    def _expr(self, e, func, selfcls, handlers, out, store=False):
+        if e is None:
+            return
+        if not any(isinstance(n, (ast.IfExp, ast.BoolOp)) for n in walk_self(e)):
+            return super()._expr(e, func, selfcls, handlers, out, store)
+        self._gexpr(e, func, selfcls, handlers, out)
+
+    def _under(self, facts, e, func, selfcls, handlers, out):
+        if facts:
+            self._guards.append(facts)
+            try:
+                self._gexpr(e, func, selfcls, handlers, out)
+            finally:
+                self._guards.pop()
+        else:
+            self._gexpr(e, func, selfcls, handlers, out)
+
+    def _gexpr(self, e, func, selfcls, handlers, out):
+        if isinstance(e, ast.IfExp):
+            self._gexpr(e.test, func, selfcls, handlers, out)
+            self._under(_member_facts(e.test, True), e.body, func, selfcls, handlers, out)
+            self._under(_member_facts(e.test, False), e.orelse, func, selfcls, handlers, out)
+            return
+        if isinstance(e, ast.BoolOp):
+            facts: Set[Tuple[str, str]] = set()
+            truth = isinstance(e.op, ast.And)   # a later operand runs when the earlier ones were all true (and) / all false (or)
+            for v in e.values:
+                self._under(set(facts), v, func, selfcls, handlers, out)
+                facts |= _member_facts(v, truth)
+            return
+        if isinstance(e, ast.Call):
+            self._call(e, func, selfcls, handlers, out)
+        elif isinstance(e, ast.Attribute) and isinstance(e.ctx, ast.Load):
+            self._attr_read(e, func, selfcls, handlers, out)
+        elif isinstance(e, ast.Subscript) and isinstance(e.ctx, ast.Load):
+            self._subscript(e, func, handlers, out)
+        if isinstance(e, (ast.FunctionDef, ast.AsyncFunctionDef, ast.ClassDef, ast.Lambda)):
+            return
+        for ch in ast.iter_child_nodes(e):
+            self._gexpr(ch, func, selfcls, handlers, out)
+
+
+# ---------------------------------------------------------------------------
 # R1 override completeness
 # ---------------------------------------------------------------------------
 
@@ -258,7 +340,7 @@ def r2_accessor_parity(run):
     if _form_call_guarded(p, run):
         skip[FORM_CALLEE] = ('deprecated WSGI-only option auto_parse_form_urlencoded is outside C06\'s quantifier; the call is '
                              'dominated by a true test of options.%s (checked)' % FORM_OPTION)
-    E = SiteEscape(p, skip_callees=skip)
+    E = GuardedSiteEscape(p, skip_callees=skip)
     if len(names) < 55:
         raise AnchorError('only %d public members are shared by the two request classes (expected >= 55)' % len(names))
     overridden = [n for n in names if ma[n].func is not mw[n].func]
@@ -777,7 +859,7 @@ def r5_driver_tables(run):
     for cq, kind, driver, extra_funcs in (
             (WSGI_REQ, 'environ', 'falcon.testing.helpers.create_environ', ()),
             (ASGI_REQ, 'scope', 'falcon.testing.helpers.create_scope', ('falcon.asgi.app.App.__call__',))):
-        E = SiteEscape(p, use_exemptions=False)
+        E = GuardedSiteEscape(p, use_exemptions=False)
         c = p.cls(cq)
         summs = []
         for f in list(c.methods.values()) + [p.func(q) for q in extra_funcs]:
@@ -1482,6 +1564,23 @@ class _Pipeline:
         self.raw_used |= hp.raw_used
         return out
 
+    def _alternatives(self, e, nid):
+        """[(guard atoms, expression)]: the alternatives of a conditional expression at the top of a bound value, each
+        under the atoms its arm runs under; `T.get(K, dflt)` of the own raw input reads as `T[K] if K in T else dflt`."""
+        if isinstance(e, ast.IfExp):
+            out = []
+            for arm, truth in ((e.body, True), (e.orelse, False)):
+                g = self._atoms(e.test, truth, nid)
+                for g2, x in self._alternatives(arm, nid):
+                    out.append((frozenset(g | g2), x))
+            return out
+        if (isinstance(e, ast.Call) and isinstance(e.func, ast.Attribute) and e.func.attr == 'get' and len(e.args) == 2 and not e.keywords
+                and self._is_own_raw(e)):
+            self.raw_used.add(self.attr)
+            read = ast.copy_location(ast.Subscript(value=e.func.value, slice=e.args[0], ctx=ast.Load()), e)
+            return [(frozenset(), read), (frozenset({('except KeyError', True)}), e.args[1])]
+        return [(frozenset(), e)]
+
     def _simple(self, e) -> bool:
         """Canonical transformation: the value, constants, `or`, str methods with
         constant arguments, slices with constant bounds.  Two of these that differ
@@ -1515,6 +1614,18 @@ class _Pipeline:
             for v in e.values:
                 out |= self._atoms(v, truth, nid)
             return out
+        if isinstance(e, ast.Compare) and len(e.ops) == 1 and isinstance(e.ops[0], (ast.In, ast.NotIn)) and isinstance(e.left, ast.Constant):
+            # `K in env` / `K not in scope`: presence of a raw input.  "The own raw input is missing" is what the
+            # `except KeyError` arm around its read says (same atom); "it is present" is what the try's else / the code
+            # after the read runs under (no atom there, none here)
+            tbl = table_of(self.f, e.comparators[0])
+            if tbl is not None and tbl[0] in ('environ', 'scope'):
+                raw = RAW_INPUTS.get((tbl[0], e.left.value), '%s:%s' % (tbl[0], e.left.value))
+                present = isinstance(e.ops[0], ast.In) == truth
+                self.raw_used.add(raw)
+                if raw == self.attr:
+                    return set() if present else {('except KeyError', True)}
+                return {('<raw:%s> is present' % raw, present)}
         if isinstance(e, ast.Compare) and len(e.ops) == 1 and type(e.ops[0]) in _CMPOPS:
             l, op, r = self.norm(e.left, nid), _CMPOPS[type(e.ops[0])], self.norm(e.comparators[0], nid)
             if not truth:
@@ -1569,18 +1680,23 @@ class _Pipeline:
                 if type(a.op) not in _BINOPS:
                     raise UnknownIdiom('%s: %s in the %s pipeline' % (self.f.qual, short(a, 60), self.attr))
                 t = '(%s %s %s)' % (V, _BINOPS[type(a.op)], self.norm(a.value, n.id))
-            else:
-                looked = self._through_helper(a.value, n.id)
+                if t != V:
+                    out.append((self._guard(n.id, a), t, a, False))
+                continue
+            # `X if c else Y` bound to the value is the statement `if c: v = X else: v = Y` (k3-c06-1: the
+            # try/except KeyError around the raw read became `env[K] if K in env else ''`); so is `env.get(K, Y)`
+            for extra, val in self._alternatives(a.value, n.id):
+                looked = self._through_helper(val, n.id)
                 if looked is not None:
                     # a module-level helper handed the value: its returns are the rebindings (guards conjoined with ours)
-                    g0 = self._guard(n.id, a)
+                    g0 = self._guard(n.id, a) | extra
                     for g, t, simple in looked:
                         out.append((frozenset(g0 | g), t, a, simple))
                     continue
-                t = self.norm(a.value, n.id)
-            if t == V:
-                continue  # a plain copy (raw read, rename, the store itself)
-            out.append((self._guard(n.id, a), t, a, not isinstance(a, ast.AugAssign) and self._simple(a.value)))
+                t = self.norm(val, n.id)
+                if t == V:
+                    continue  # a plain copy (raw read, rename, the store itself)
+                out.append((frozenset(self._guard(n.id, a) | extra), t, a, self._simple(val)))
         for x in walk_no_nested(self.f.node):
             if isinstance(x, ast.NamedExpr) and x.target.id in self.vars:
                 raise UnknownIdiom('%s: %r (part of the %s pipeline) is bound by a walrus' % (self.f.qual, x.target.id, self.attr))
@@ -2606,9 +2722,49 @@ _NEUTRAL_CALLS = frozenset(('builtins.isinstance', 'builtins.len', 'builtins.ite
                             'builtins.str', 'builtins.format'))      # total renderings: they neither reject nor normalise an input
 
 
-def _param_conversions(p, f: Func, depth=0) -> Dict[str, Set[str]]:
+def _method_ops(node, is_value) -> Set[Tuple[str, str]]:
+    """(method name, argument text) of every `<value>.m(<constant arguments>)` under node."""
+    res = set()
+    for c in walk_no_nested(node):
+        if (isinstance(c, ast.Call) and isinstance(c.func, ast.Attribute) and is_value(c.func.value) and not c.keywords
+                and all(isinstance(a, ast.Constant) for a in c.args)):
+            res.add((c.func.attr, ', '.join(unparse(a) for a in c.args)))
+    return res
+
+
+def _pure_normaliser_ops(p, h: Func, f: Func) -> Optional[Set[Tuple[str, str]]]:
+    """When h is a private straight-line helper of f's module that takes ONE value and only inspects / rebuilds it with
+    str methods (no raise, no loop, no try, no call other than methods of its parameter with constant arguments and
+    neutral builtins): the set of those method calls -- what the helper does to the value, readable at a call site
+    that has the same operations written inline.  None for anything else (a validator, a table lookup, a helper that
+    calls further functions): such a callee is compared by name only."""
+    if h.cls is not None or h.parent is not None or h.module is not f.module or not h.name.startswith('_') or h.is_async or h.decorators:
+        return None
+    params = h.params()
+    if len(params) != 1 or h.node.args.vararg or h.node.args.kwarg:
+        return None
+    for x in walk_no_nested(h.node):
+        if isinstance(x, (ast.Raise, ast.While, ast.For, ast.AsyncFor, ast.Try, ast.With, ast.AsyncWith, ast.Yield, ast.YieldFrom, ast.Await,
+                          ast.Global, ast.Nonlocal, ast.Lambda, ast.FunctionDef, ast.AsyncFunctionDef, ast.ClassDef, ast.Subscript,
+                          ast.NamedExpr, ast.Assert, ast.Delete)):
+            return None
+        if isinstance(x, ast.Name) and isinstance(x.ctx, ast.Store):
+            return None             # (no locals: every expression is written in terms of the parameter)
+        if isinstance(x, ast.Call):
+            if isinstance(x.func, ast.Attribute) and isinstance(x.func.value, ast.Name) and x.func.value.id == params[0] and not x.keywords \
+                    and all(isinstance(a, ast.Constant) for a in x.args):
+                continue
+            if p.resolve_callable(h, x.func) in _NEUTRAL_CALLS:
+                continue
+            return None
+    ops = _method_ops(h.node, lambda v: isinstance(v, ast.Name) and v.id == params[0])
+    return ops or None
+
+
+def _param_conversions(p, f: Func, depth=0, ops: Optional[Dict[str, Set[Tuple[str, str]]]] = None) -> Dict[str, Set[str]]:
     """parameter -> qualified names of the functions it is handed to as an argument (directly, or wrapped in another such
-    call: `str(int(port))` counts both), looking through module-level helpers that are called for their effect only."""
+    call: `str(int(port))` counts both), looking through module-level helpers that are called for their effect only.
+    ops (when given) receives parameter -> the str-method calls with constant arguments made on the parameter's value."""
     params = [a for a in f.params() if a not in ('self', 'cls')]
     out: Dict[str, Set[str]] = {a: set() for a in params}
     parent = enclosing_map(f.node)
@@ -2621,18 +2777,42 @@ def _param_conversions(p, f: Func, depth=0) -> Dict[str, Set[str]]:
             return t, None
         return None, None
 
-    def params_of(e):
-        if isinstance(e, ast.Name) and e.id in out:
-            return {e.id}
+    asg = assignments(f)
+
+    def params_of(e, d=0):
+        """the parameters whose value `e` IS on some evaluation: the bare parameter, one of the alternatives of an
+        or-chain / conditional expression (`root_path or app or ''`, `x if x is not None else dflt`: k3-c06-2), a local
+        bound exactly once to such an expression, or a conversion call handed one of them."""
+        if d > 4:
+            return set()
+        if isinstance(e, ast.Name):
+            if e.id in out:
+                return {e.id}
+            vals = asg.get(e.id, ())
+            if len(vals) == 1 and vals[0] is not None:
+                return params_of(vals[0], d + 1)
+            return set()
+        if isinstance(e, ast.BoolOp):
+            res = set()
+            for v in e.values:
+                res |= params_of(v, d + 1)
+            return res
+        if isinstance(e, ast.IfExp):
+            return params_of(e.body, d + 1) | params_of(e.orelse, d + 1)
+        if isinstance(e, ast.NamedExpr):
+            return params_of(e.value, d + 1)
         if isinstance(e, ast.Call):
             q, _t = qual(e)
             if q is not None and q not in _NEUTRAL_CALLS:
                 res = set()
                 for a in list(e.args) + [k.value for k in e.keywords]:
-                    res |= params_of(a)
+                    res |= params_of(a, d + 1)
                 return res
         return set()
 
+    if ops is not None:
+        for name in out:
+            ops.setdefault(name, set()).update(_method_ops(f.node, lambda v, name=name: isinstance(v, ast.Name) and name in params_of(v)))
     for c in walk_no_nested(f.node):
         if not isinstance(c, ast.Call):
             continue
@@ -2673,14 +2853,25 @@ def r19_driver_conversions(run):
     fw, fa = p.func(wq), p.func(aq)
     run.use(fw)
     run.use(fa)
-    cw, ca = _param_conversions(p, fw), _param_conversions(p, fa)
+    ow: Dict[str, Set[Tuple[str, str]]] = {}
+    oa: Dict[str, Set[Tuple[str, str]]] = {}
+    cw, ca = _param_conversions(p, fw, ops=ow), _param_conversions(p, fa, ops=oa)
     shared = sorted(set(cw) & set(ca))
     if len(shared) < 5:
         raise AnchorError('%s / %s share only %d parameter(s)' % (wq, aq, len(shared)))
     n_conv = 0
     for name in shared:
         n_conv += bool(cw[name] or ca[name])
-        for (here, there, fh, ft, ch, ct) in ((wq, aq, fw, fa, cw, ca), (aq, wq, fa, fw, ca, cw)):
+        for (here, there, fh, ft, ch, ct, ot) in ((wq, aq, fw, fa, cw, ca, oa), (aq, wq, fa, fw, ca, cw, ow)):
+            # a private one-value helper that only applies str methods (a pure normaliser extracted on one side): the
+            # other side applies it too when it makes the same method calls on the parameter's value inline
+            for m in sorted(ch[name] - ct[name]):
+                h = p.funcs.get(m)
+                hops = _pure_normaliser_ops(p, h, fh) if h is not None else None
+                if hops is not None and hops <= ot.get(name, set()):
+                    ct[name].add(m)
+                    run.ok('%s applies the str operations of %s() {%s} to `%s` inline' % (
+                        ft.name, h.name, ', '.join('.%s(%s)' % o for o in sorted(hops)), name), ft.loc(), '%s inline(%s)' % (name, h.name))
             missing = sorted(ch[name] - ct[name])
             if missing:
                 run.fail('%s puts the shared parameter `%s` through %s; %s does not: the two drivers hand different requests to the twins'
